@@ -1,5 +1,41 @@
 import LitexProofs.Event.Bus
 import LitexProofs.Event.Gpio
+import LitexProofs.Event.Discipline
+import LitexProofs.Event.Producers
+import LitexProofs.Event.SocIrq
+/-
+  INVENTORY of the anchored code (session 2).  Columns: code | model | theorems | tie to /repo
+  (A = exhaustive co-exploration of the reachable product, B = seeded lock-step co-simulation, P = Python-level
+   case comparison; "mon" = model-independent monitor on the real signals)
+
+  litex/soc/interconnect/csr_eventmanager.py
+    _EventSource (ports)            | Bit / Kind.* (Core.lean)                 | —                                   | ports compared in every instance
+    EventSourcePulse                | Kind.pulse: event/pendingNext/status     | pending_next, pending_iff_unacked_event, event_not_lost, set_wins_over_clear, status_shows | A 1-3 sources, B 3-35; mon
+    EventSourceProcess(rising/falling, default edge) | Kind.rising/.falling, trigDNext | same + event = edge of prevTrig     | A, B (default-argument ctor in `variant`); mon
+    EventSourceLevel                | Kind.level: pendingVis = trig            | level_mirrors, status_shows         | A, B; mon
+    EventManager.do_finalize: status/pending/enable CSRs, bit order = duid, clear = pending.re & pending.r[i], irq = OR | evMgr (Core.lean) incl. real CSRBank timing, multi-word registers, both orderings | irq_iff, irq_iff_out, enable_is_last_written, clear_iff_commit_of_last_written, clear_iff_write_one, event_not_lost_until_acked, ack_clears, clear_other_bit_keeps, clear_is_local, read_shows; multi-word: clear_needs_one_in_this_write_partial (+witness), clear_after_addressed_write, discipline_exact, whole_register_is_safe, single_word_always_safe, clear_under_discipline, stale_commit_drops_pending, event_not_lost_until_acked_any_width | A csr1/2/8/32 big+little, pages, reversed attach order; B; mon (strict = discipline)
+    EventManager: field names / descriptions (get_source_name, get_pending_source_description, CSRField docs) | not modelled (documentation strings; no behaviour) | — | default names `event<i>` exercised in GlueInst
+    EventManager.__setattr__ (FinalizeError after finalize) | not modelled (elaboration-time guard) | — | —
+    SharedIRQ                       | shared (Core.lean)                       | shared_irq_or, shared_run_proj      | A 2-3 managers, B; GlueInst (CSRBankArray + Interconnect); mon
+  litex/soc/cores/timer.py
+    Timer: value counter, ev.zero trigger `value == 0` | timer (Producers.lean); `_en/_load/_reload` values are inputs | timer_is_evMgr, timer_zero_pending, timer_zero_not_lost, timer_elapses_pending | A Timer(2), B Timer(8/32) csr8/32 (model computes the trigger); older B instances feed the sampled trigger; mon
+    Timer: `_value`/`_update_value` latch, add_uptime  | not modelled (no event; property C14)  | — | —
+  litex/soc/cores/uart.py
+    UART (sys-clocked): tx/rx SyncFIFO(buffered) levels, ev.tx = sink.ready, ev.rx = source.valid, rx pop = ev.rx.clear | rx_we & rxtx.we | uart, fifoNext (Producers.lean; depths >= 2, data abstracted) | uart_is_evMgr, uart_rx_valid_pending, uart_tx_nonfull_pending, uart_rx_char_pending, uart_rx_ack_is_pop, uart_levels_bounded | A depth 2/2 (rx path, tx path; thorough: both), B 2/2, 4/3 rx_we, 16/16; UartRxMonitor scoreboard
+    UART: FIFO data path, `_txfull/_rxempty/_txempty/_rxfull`, phy_cd != sys (AsyncFIFO), add_auto_tx_flush | not modelled here (data: C03/C14; CDC: C05) | — | rxtx data order checked by UartRxMonitor
+    RS232PHY*, UARTBone, Stream2Wishbone, UARTCrossover …    | not event logic                        | — | —
+  litex/soc/cores/gpio.py
+    _GPIOIRQ.add_irq (mode/edge, in_d, EventSourceProcess rising) | gpioIrq (Gpio.lean); `_mode/_edge` values are inputs | gpio_is_evMgr, gpio_change_pending_partial (+witness = open finding C15-gpio-change-back-to-back) | B 4/12/33 pads; probe
+    GPIOIn / GPIOTristate(external): MultiReg(pads, _in.status) + add_irq | gpioSync (Producers.lean) | gpio_sync_is_gpioIrq, gpio_sync_two_cycles, gpio_raw_change_pending_partial | A 1 pad (thorough 2), B 4 / 3 tristate / 12 / 33 from RAW pads; SyncDelayMonitor
+    GPIOOut, GPIOInOut, GPIOTristate(internal TSTriple) | not modelled (no event logic / needs a tristate primitive) | — | —
+  litex/soc/integration/soc.py
+    SoCIRQHandler / SoCLocHandler.add+alloc as used for IRQs, add_cpu reserved lines | irqAlloc (SocIrq.lean; fresh names; name bookkeeping is C13) | irq_numbers_distinct | P exhaustive n_irqs<=3 + random 32 vs real SoCIRQHandler and vs documented numbering
+    SoC.do_finalize `cpu.interrupt[loc] = ev.irq`       | cpuInterrupt, socIrq (SocIrq.lean)  | soc_interrupt_bit, soc_interrupt_unused, soc_run_is_product, soc_event_raises_interrupt | B real SoCCore + stub CPU (interrupt vector, wishbone master through the real bus/CSR bridge/banks); SocMonitor
+    add_config/add_constant (`*_INTERRUPT` constants for software) | not modelled (export: C12/C13)       | — | —
+  Remaining gaps: client configuration registers (`_mode`, `_edge`, `_en`, `_load`, `_reload`) are model inputs fed from
+  the real storage (their CSR write path is C12's); CPU-internal interrupt controllers (e.g. VexRiscv mask/pending CSRs)
+  are outside LiteX Python; UART with depth-0/1 FIFOs or a separate PHY clock domain is not modelled.
+-/
 /-
   C15 — Interrupt events are never lost and the IRQ line means pending-and-enabled.
 
@@ -285,6 +321,291 @@ theorem gpio_change_pending_partial {n bw : Nat} {little : Bool} {gins : List Gp
     rw [gpio_trig_change hk (by omega) hm, hc]
     rfl
 
+/-! ## session 2 — access disciplines for a `pending` register of several bus words: exactly which are safe
+
+  `freshWr c ins t k` = the most recent value written to bit position `k` of `pending` within the TRANSACTION that
+  ends in cycle `t` (the cycles after the previous commit, up to and including `t`); `SafeCommit c ins t` = every one
+  that the commit of cycle `t` applies was written in its own transaction ("fresh or zero"); `WholeRegister` = every
+  word is written in every transaction (what the generated `*_ev_pending_write` accessors do).
+  (LitexProofs/Event/Discipline.lean) -/
+
+/-- EXACT characterisation, every configuration: the commit of cycle `t` applies no clear that its transaction did
+    not ask for  ⇔  it is a `SafeCommit`. -/
+theorem discipline_exact {t : Nat} (ht : t < ins.length) :
+    SafeCommit c ins t ↔ ∀ k, k < c.n → clearAt c ins (t + 1) k = true → freshWr c ins t k = some true :=
+  safe_iff_no_spurious_clear ht
+
+/-- Sufficient in practice: whole-register transactions are safe … -/
+theorem whole_register_is_safe (h : WholeRegister c ins) : Disciplined c ins := wholeRegister_disciplined h
+
+/-- … and when the sources fit one bus word every access pattern is. -/
+theorem single_word_always_safe (hn : 0 < c.n) (hw : c.n ≤ c.bw) (ins : List In) : Disciplined c ins :=
+  singleWord_disciplined hn hw ins
+
+/-- Under the discipline the clear is exactly "this transaction wrote a one to bit `k` and now commits". -/
+theorem clear_under_discipline (hk : k < c.n) {t : Nat} (ht : t < ins.length) (hs : SafeCommit c ins t) :
+    clearAt c ins (t + 1) k = (commits c (inAt ins t) && (freshWr c ins t k).getD false) :=
+  clear_eq_fresh hk ht hs
+
+/-- Necessary: ANY commit outside the discipline (a stale one in bit `k`, nothing fresh) clears source `k`, and a
+    pending, un-acknowledged event of `k` is lost — for every configuration and trace, not only the witness. -/
+theorem stale_commit_drops_pending (hk : k < c.n) (hkind : c.kind k ≠ .level) {t : Nat} (ht : t + 1 < ins.length)
+    (hc : commits c (inAt ins t) = true) (hl : (lastWr c ins .pending (t + 1) k).getD false = true)
+    (hf : freshWr c ins t k ≠ some true) (hp : pendingAt c ins (t + 1) k = true)
+    (hev : eventAt c ins (t + 1) k = false) : pendingAt c ins (t + 2) k = false :=
+  stale_commit_loses_event hk hkind ht hc hl hf hp hev
+
+/-- Never lost, ANY number of words, under the discipline: an event in cycle `u` is pending in every later cycle `T`
+    unless a transaction committing in some cycle `v`, `u ≤ v`, `v + 1 < T`, wrote a one to bit `k`.
+    (`event_not_lost_until_acked` is the one-word instance.) -/
+theorem event_not_lost_until_acked_any_width (hk : k < c.n) (hkind : c.kind k ≠ .level) (hd : Disciplined c ins)
+    {u T : Nat} (hu : u < T) (hT : T ≤ ins.length) (hev : eventAt c ins u k = true)
+    (hno : ∀ v, u ≤ v → v + 1 < T → ¬ (commits c (inAt ins v) = true ∧ freshWr c ins v k = some true)) :
+    pendingAt c ins T k = true :=
+  event_not_lost_until_acked_disciplined hk hkind hd hu hT hev hno
+
+/-! ## session 2 — the event PRODUCERS end to end (models in LitexModel/Event/Producers.lean)
+
+  In each client the event manager is `evMgr` run on the trigger trace that the client logic produces
+  (`timerTrace`, `uartTrace`, `gpioTrace ∘ syncTrace`), so every theorem above applies to it; the theorems below say
+  what the hardware condition of each producer is and that it always ends up pending. -/
+
+section producers
+variable {bw : Nat} {little : Bool}
+
+/-! ### Timer: `ev.zero`, trigger `value == 0`, rising edge -/
+
+theorem timer_is_evMgr (bw : Nat) (little : Bool) (tins : List TimerIn) :
+    ((timer bw little).run tins).ev = (evMgr (timerCfg bw little)).run (timerTrace bw little tins) :=
+  timer_run_ev bw little tins
+
+/-- Every arrival of the counter at zero (non-zero in cycle `t`, zero in cycle `t+1`) is pending in cycle `t+2`,
+    for every schedule of `_en`/`_load`/`_reload` values and of bus accesses (clears included). -/
+theorem timer_zero_pending {tins : List TimerIn} {t : Nat} (ht : t + 1 < tins.length)
+    (hnz : timerValueAt tins t ≠ 0) (hz : timerValueAt tins (t + 1) = 0) :
+    pendingAt (timerCfg bw little) (timerTrace bw little tins) (t + 2) 0 = true := by
+  have hlen := timerTrace_length bw little tins
+  have hev : eventAt (timerCfg bw little) (timerTrace bw little tins) (t + 1) 0 = true := by
+    unfold eventAt
+    rw [timer_cfg_kind]
+    simp only [prevTrig, Kind.event]
+    rw [timer_trig bw little tins ht, timer_trig bw little tins (by omega)]
+    simp [hz, hnz]
+  exact event_pending_next_cycle (k := 0) (by rw [timer_cfg_n]; omega) (by rw [timer_cfg_kind]; decide)
+    (by omega) hev
+
+/-- … and stays pending until software writes a one to bit 0 of `ev_pending` (bank-local index 1). -/
+theorem timer_zero_not_lost {tins : List TimerIn} {t T : Nat} (hbw : 1 ≤ bw) (htT : t + 1 < T) (hT : T ≤ tins.length)
+    (hnz : timerValueAt tins t ≠ 0) (hz : timerValueAt tins (t + 1) = 0)
+    (hno : ∀ v, t + 1 ≤ v → v + 1 < T →
+      ¬ ((timerInAt tins v).we = true ∧ (timerInAt tins v).adr = 1 ∧ (timerInAt tins v).datW.testBit 0 = true)) :
+    pendingAt (timerCfg bw little) (timerTrace bw little tins) T 0 = true := by
+  have hlen := timerTrace_length bw little tins
+  have hev : eventAt (timerCfg bw little) (timerTrace bw little tins) (t + 1) 0 = true := by
+    unfold eventAt
+    rw [timer_cfg_kind]
+    simp only [prevTrig, Kind.event]
+    rw [timer_trig bw little tins (by omega), timer_trig bw little tins (by omega)]
+    simp [hz, hnz]
+  refine event_not_lost_until_acked (k := 0) (by rw [timer_cfg_n]; omega) (by rw [timer_cfg_kind]; decide)
+    (by rw [timer_cfg_n]; exact hbw) htT (by omega) hev (fun v h1 h2 => ?_)
+  obtain ⟨b1, b2, b3⟩ := timer_trace_bus bw little tins (t := v) (by omega)
+  rw [b1, b2, b3]
+  exact hno v h1 h2
+
+/-- One-shot / period: the counter holds `v > 0` in cycle `t` and the timer stays enabled for `v` cycles ⇒ the zero
+    event is pending in cycle `t + v + 1`. -/
+theorem timer_elapses_pending {tins : List TimerIn} {t v : Nat} (hv : 0 < v) (hval : timerValueAt tins t = v)
+    (hen : ∀ i, i < v → (timerInAt tins (t + i)).en = true) (ht : t + v < tins.length) :
+    pendingAt (timerCfg bw little) (timerTrace bw little tins) (t + v + 1) 0 = true := by
+  obtain ⟨w, rfl⟩ : ∃ w, v = w + 1 := ⟨v - 1, by omega⟩
+  have h1 := timer_countdown tins t (w + 1) hval w (by omega) (fun i hi => hen i (by omega))
+  have h2 := timer_countdown tins t (w + 1) hval (w + 1) (by omega) hen
+  have := timer_zero_pending (bw := bw) (little := little) (tins := tins) (t := t + w) (by omega)
+    (by rw [h1]; omega) (by rw [show t + w + 1 = t + (w + 1) by omega, h2]; omega)
+  rw [show t + (w + 1) + 1 = t + w + 2 by omega]
+  exact this
+
+/-! ### UART: `ev.tx` (tx FIFO not full), `ev.rx` (rx FIFO output valid), both rising-edge -/
+
+variable {dtx drx : Nat} {rxWe : Bool}
+
+theorem uart_is_evMgr (dtx drx : Nat) (rxWe : Bool) (bw : Nat) (little : Bool) (uins : List UartIn) :
+    ((uart dtx drx rxWe bw little).run uins).ev =
+      (evMgr (uartCfg bw little)).run (uartTrace dtx drx rxWe bw little uins) :=
+  uart_run_ev dtx drx rxWe bw little uins
+
+/-- The rx FIFO output becoming valid is pending (bit 1) in the next cycle, whatever software does. -/
+theorem uart_rx_valid_pending {uins : List UartIn} {t : Nat} (ht : t + 1 < uins.length)
+    (h0 : (uartStAt dtx drx rxWe bw little uins t).rx.rd = false)
+    (h1 : (uartStAt dtx drx rxWe bw little uins (t + 1)).rx.rd = true) :
+    pendingAt (uartCfg bw little) (uartTrace dtx drx rxWe bw little uins) (t + 2) 1 = true := by
+  have hlen := uartTrace_length dtx drx rxWe bw little uins
+  have hev : eventAt (uartCfg bw little) (uartTrace dtx drx rxWe bw little uins) (t + 1) 1 = true := by
+    unfold eventAt
+    rw [uart_cfg_kind bw little (by omega)]
+    simp only [prevTrig, Kind.event]
+    rw [uart_trig_rx dtx drx rxWe bw little uins ht, uart_trig_rx dtx drx rxWe bw little uins (by omega), h0, h1]
+    rfl
+  exact event_pending_next_cycle (k := 1) (by rw [uart_cfg_n]; omega)
+    (by rw [uart_cfg_kind bw little (by omega)]; decide) (by omega) hev
+
+/-- The tx FIFO leaving the full state is pending (bit 0) in the next cycle. -/
+theorem uart_tx_nonfull_pending {uins : List UartIn} {t : Nat} (ht : t + 1 < uins.length)
+    (h0 : (uartStAt dtx drx rxWe bw little uins t).tx.writable dtx = false)
+    (h1 : (uartStAt dtx drx rxWe bw little uins (t + 1)).tx.writable dtx = true) :
+    pendingAt (uartCfg bw little) (uartTrace dtx drx rxWe bw little uins) (t + 2) 0 = true := by
+  have hlen := uartTrace_length dtx drx rxWe bw little uins
+  have hev : eventAt (uartCfg bw little) (uartTrace dtx drx rxWe bw little uins) (t + 1) 0 = true := by
+    unfold eventAt
+    rw [uart_cfg_kind bw little (by omega)]
+    simp only [prevTrig, Kind.event]
+    rw [uart_trig_tx dtx drx rxWe bw little uins ht, uart_trig_tx dtx drx rxWe bw little uins (by omega), h0, h1]
+    rfl
+  exact event_pending_next_cycle (k := 0) (by rw [uart_cfg_n]; omega)
+    (by rw [uart_cfg_kind bw little (by omega)]; decide) (by omega) hev
+
+/-- End to end: a character arriving at an empty rx FIFO (cycle `t`) makes the rx event pending in cycle `t+3`,
+    for every schedule of software accesses (acknowledges, rxtx reads) and of the tx side. -/
+theorem uart_rx_char_pending {uins : List UartIn} {t : Nat} (hd : 0 < drx) (ht : t + 2 < uins.length)
+    (hempty : (uartStAt dtx drx rxWe bw little uins t).rx = FifoSt.empty)
+    (hv : (uartInAt uins t).sinkValid = true) :
+    pendingAt (uartCfg bw little) (uartTrace dtx drx rxWe bw little uins) (t + 3) 1 = true := by
+  have s1 : (uartStAt dtx drx rxWe bw little uins (t + 1)).rx = { lvl := 1, rd := false } := by
+    rw [uartStAt_succ dtx drx rxWe bw little uins (by omega)]
+    show fifoNext drx _ _ _ = _
+    rw [hempty, hv]
+    exact fifoNext_empty_push hd _
+  have s2 : (uartStAt dtx drx rxWe bw little uins (t + 2)).rx.rd = true := by
+    rw [uartStAt_succ dtx drx rxWe bw little uins (by omega)]
+    show (fifoNext drx _ _ _).rd = true
+    rw [s1]
+    exact fifoNext_refill_rd _ _ _
+  exact uart_rx_valid_pending (t := t + 1) (by omega) (by rw [s1]) s2
+
+/-- The acknowledge of the rx event is the pop of the rx FIFO (same cycle, same signal), and the FIFO levels never
+    exceed their depths. -/
+theorem uart_rx_ack_is_pop (s : UartSt) (i : UartIn) :
+    ((uart dtx drx rxWe bw little).out s i).rxPop = (s.ev.clear 1 || (rxWe && i.rxtxWe)) := rfl
+
+theorem uart_levels_bounded (uins : List UartIn) :
+    ((uart dtx drx rxWe bw little).run uins).tx.lvl ≤ dtx ∧ ((uart dtx drx rxWe bw little).run uins).rx.lvl ≤ drx :=
+  Machine.invariant_runFrom (uart dtx drx rxWe bw little) (fun s => s.tx.lvl ≤ dtx ∧ s.rx.lvl ≤ drx)
+    (fun s _ h => ⟨fifoNext_le dtx s.tx _ _ h.1, fifoNext_le drx s.rx _ _ h.2⟩) uins _
+    ⟨Nat.zero_le _, Nat.zero_le _⟩
+
+/-! ### GPIO: MultiReg synchroniser in front of `_GPIOIRQ` -/
+
+theorem gpio_sync_is_gpioIrq (n bw : Nat) (little : Bool) (gins : List GpioRawIn) :
+    ((gpioSync n bw little).run gins).g = (gpioIrq n bw little).run (syncTrace n bw little gins) :=
+  gpioSync_run_g n bw little gins
+
+/-- The IRQ logic sees every raw pad exactly two cycles late (0 during the first two cycles). -/
+theorem gpio_sync_two_cycles (n bw : Nat) (little : Bool) (gins : List GpioRawIn) {k t : Nat} (hk : k < n)
+    (ht : t < gins.length) : padAt (syncTrace n bw little gins) t k = delay2 (fun t => rawAt gins t k) t :=
+  sync_pad n bw little gins hk ht
+
+/-- End to end, Change mode: a change of the RAW pad in cycle `t` is pending in cycle `t+3`, whatever software
+    does, provided the raw pad did not also change in cycle `t-1` (same hypothesis as `gpio_change_pending_partial`,
+    moved in front of the synchroniser; the excluded region is the open finding). -/
+theorem gpio_raw_change_pending_partial {n : Nat} {gins : List GpioRawIn} {t k : Nat} (hk : k < n)
+    (ht : t + 2 < gins.length)
+    (hmode2 : (gpioRawInAt gins (t + 2)).mode.getD k false = true)
+    (hmode1 : (gpioRawInAt gins (t + 1)).mode.getD k false = true)
+    (hchange : rawChangeAt gins k t = true)
+    (hquiet : ∀ t', t = t' + 1 → rawChangeAt gins k t' = false) :
+    pendingAt (gpioCfg n bw little) (gpioTrace n (syncTrace n bw little gins)) (t + 3) k = true := by
+  have hlen := syncTrace_length n bw little gins
+  refine gpio_change_pending_partial (t := t + 2) hk (by omega) ?_ ?_ ?_
+  · rw [sync_mode n bw little gins ht]; exact hmode2
+  · rw [sync_change n bw little gins hk ht]; exact hchange
+  · intro t' ht'
+    obtain rfl : t' = t + 1 := by omega
+    refine ⟨by rw [sync_mode n bw little gins (by omega)]; exact hmode1, ?_⟩
+    rw [sync_change n bw little gins hk (by omega)]
+    cases t with
+    | zero => rfl
+    | succ t'' => exact hquiet t'' rfl
+
+end producers
+
+/-! ## session 2 — SoC level: interrupt numbers and the CPU's interrupt vector (LitexModel/Event/SocIrq.lean) -/
+
+/-- `soc.irq.add` numbering, any request sequence that the handler accepts: one number per request, pairwise
+    distinct, below `n_irqs`, none of the CPU's own lines, a requested number is the number given. -/
+theorem irq_numbers_distinct {nl : Nat} {used locs : List Nat} {reqs : List (Option Nat)}
+    (h : irqAlloc nl used reqs = some locs) :
+    locs.length = reqs.length ∧ locs.Nodup ∧ (∀ l ∈ locs, l < nl ∧ l ∉ used) ∧
+    (∀ (j m : Nat), reqs[j]? = some (some m) → locs[j]? = some m) :=
+  irqAlloc_spec reqs used locs h
+
+/-- Bit `locs[j]` of `cpu.interrupt` is high exactly when manager `j` has a pending and enabled source — in every
+    state and for every input of the SoC (so in every cycle of every run). -/
+theorem soc_interrupt_bit {width : Nat} {locs : List Nat} {cs : List Cfg} (ss : List St) (is : List In)
+    (hnd : locs.Nodup) (hlc : locs.length = cs.length) (hs : ss.length = cs.length) (hi : is.length = cs.length)
+    {j : Nat} (hj : j < cs.length) (hw : locs[j]'(by omega) < width) :
+    ((socIrq width locs cs).out ss is).1.getD (locs[j]'(by omega)) false = true ↔
+      ∃ k, k < cs[j].n ∧ pendingVis cs[j] (ss[j]'(by omega)) (is[j]'(by omega)) k = true ∧
+        ((ss[j]'(by omega)).bit k).en = true := by
+  have hol := sharedOuts_length cs ss is hs hi
+  show (cpuInterrupt width locs ((sharedOuts cs ss is).map (·.irq))).getD _ false = true ↔ _
+  rw [cpuInterrupt_getD hw, cpuInterruptBit_nodup hnd (by simp [hol, hlc]) (by omega)]
+  simp only [List.getElem_map]
+  rw [sharedOuts_getElem cs ss is j hj (by omega) (by omega) (by omega)]
+  exact irqOf_iff _ _
+
+/-- Every bit that no peripheral was given is 0. -/
+theorem soc_interrupt_unused {width : Nat} {locs : List Nat} {cs : List Cfg} (ss : List St) (is : List In)
+    {b : Nat} (hb : b < width) (hn : b ∉ locs) : ((socIrq width locs cs).out ss is).1.getD b false = false := by
+  show (cpuInterrupt width locs _).getD b false = false
+  rw [cpuInterrupt_getD hb, cpuInterruptBit_unused hn]
+
+/-- The SoC's managers step as the `SharedIRQ` product does, so `shared_run_proj` (each manager behaves as alone on
+    its own share of the inputs) and with it every theorem of this file applies to each peripheral of the SoC. -/
+theorem soc_run_is_product (width : Nat) (locs : List Nat) (cs : List Cfg) (ins : List (List In)) :
+    (socIrq width locs cs).run ins = (shared cs).run ins :=
+  socIrq_runFrom width locs cs ins _
+
+/-- End to end at SoC level: an event of source `k` of peripheral `j` in cycle `u` raises bit `locs[j]` of
+    `cpu.interrupt` in every later cycle `T` in which the source is enabled, until it is cleared — for all trigger
+    waveforms of all peripherals and all bus traffic to all banks. -/
+theorem soc_event_raises_interrupt {width : Nat} {locs : List Nat} {cs : List Cfg} (hnd : locs.Nodup)
+    (hlc : locs.length = cs.length) (ins : List (List In)) (hwf : ∀ v ∈ ins, v.length = cs.length)
+    {j k u T : Nat} (hj : j < cs.length) (hw : locs[j]'(by omega) < width) (hk : k < cs[j].n)
+    (hkind : cs[j].kind k ≠ .level) (hu : u < T) (hT : T < ins.length)
+    (hev : eventAt cs[j] (ins.map fun v => v.getD j In.idle) u k = true)
+    (hno : ∀ v, u < v → v < T → clearAt cs[j] (ins.map fun v => v.getD j In.idle) v k = false)
+    (hen : enableAt cs[j] (ins.map fun v => v.getD j In.idle) T k = true) :
+    ((socIrq width locs cs).out ((socIrq width locs cs).run (ins.take T)) (ins.getD T [])).1.getD
+      (locs[j]'(by omega)) false = true := by
+  let insj := ins.map fun v => v.getD j In.idle
+  have hpend : pendingAt cs[j] insj T k = true :=
+    event_not_lost hk hkind hu (by simp [insj]; omega) hev hno
+  have hinit : ((shared cs).init).length = cs.length := by simp [shared]
+  obtain ⟨hlen, hproj⟩ := shared_run_proj cs (ins.take T) (shared cs).init hinit
+    (fun v hv => hwf v (List.mem_of_mem_take hv))
+  have hrun : (socIrq width locs cs).run (ins.take T) = (shared cs).runFrom (shared cs).init (ins.take T) :=
+    soc_run_is_product width locs cs (ins.take T)
+  have hsl : ((socIrq width locs cs).run (ins.take T)).length = cs.length := by rw [hrun]; exact hlen
+  have hil : (ins.getD T []).length = cs.length := by
+    rw [List.getD_eq_getElem?_getD, List.getElem?_eq_getElem hT]
+    exact hwf _ (List.getElem_mem hT)
+  have hst : ((socIrq width locs cs).run (ins.take T))[j]'(by omega) = stAt cs[j] insj T := by
+    have h := hproj j hj (by omega)
+    rw [← hrun] at h
+    rw [List.getElem?_eq_getElem (by omega)] at h
+    have h' := Option.some.inj h
+    rw [h']
+    unfold stAt Machine.run
+    simp [shared, insj, List.map_take]
+  have hjT : j < (ins[T]'hT).length := by rw [hwf _ (List.getElem_mem hT)]; exact hj
+  have hin : (ins.getD T [])[j]'(by omega) = inAt insj T := by
+    unfold inAt
+    simp [insj, List.getD_eq_getElem?_getD, hT, hjT]
+  refine (soc_interrupt_bit _ _ hnd hlc hsl hil hj hw).mpr ⟨k, hk, ?_, ?_⟩
+  · rw [hst, hin]; exact hpend
+  · rw [hst]; exact hen
+
 /-! ## non-vacuity and negative witnesses (concrete runs, checked by evaluation) -/
 
 def wr (adr dat : Nat) (trig : List Bool := []) : In := { trig := trig, adr := adr, we := true, datW := dat }
@@ -339,6 +660,53 @@ example :
     changeAt gins 5 0 = true ∧ clearAt c (gpioTrace 1 gins) 5 0 = true ∧
     (List.range 8).map (fun t => pendingAt c (gpioTrace 1 gins) t 0) =
       [false, false, true, true, true, true, false, false] := by decide
+
+/-- Non-vacuity of the timer theorems (8-bit CSR bus): periodic mode with reload 2; the counter runs 0,2,1,0,2,1,0;
+    the arrival at zero in cycle 3 is pending in cycle 4, the acknowledge written in cycle 4 clears it in cycle 6,
+    the next arrival (cycle 6, coinciding with nothing) is pending in cycle 7. -/
+example :
+    let ti (adr : Nat) (we : Bool) (dat : Nat) : TimerIn := { en := true, load := 0, reload := 2, adr := adr, we := we, datW := dat }
+    let tins := [ti 9 false 0, ti 2 true 1, ti 9 false 0, ti 9 false 0, ti 1 true 1, ti 9 false 0, ti 9 false 0, ti 9 false 0]
+    (List.range 8).map (timerValueAt tins) = [0, 2, 1, 0, 2, 1, 0, 2] ∧
+    (List.range 8).map (fun t => pendingAt (timerCfg 8 false) (timerTrace 8 false tins) t 0) =
+      [false, true, true, true, true, true, false, true] ∧
+    (List.range 8).map (irqAt (timerCfg 8 false) (timerTrace 8 false tins)) =
+      [false, false, true, true, true, true, false, true] := by decide
+
+/-- Non-vacuity of `uart_rx_char_pending` (depths 2/2, 8-bit bus): a character arrives in cycle 1 at the empty rx
+    FIFO; rx (bit 1) is pending from cycle 4 on; the acknowledge written in cycle 4 pops the FIFO in cycle 5. -/
+example :
+    let ui (sv : Bool) (adr : Nat) (we : Bool) (dat : Nat) : UartIn :=
+      { sinkValid := sv, srcReady := false, rxtxRe := false, rxtxWe := false, adr := adr, we := we, datW := dat }
+    let uins := [ui false 9 false 0, ui true 9 false 0, ui false 9 false 0, ui false 9 false 0, ui false 1 true 2,
+                 ui false 9 false 0, ui false 9 false 0]
+    (uartStAt 2 2 false 8 false uins 1).rx = FifoSt.empty ∧
+    (List.range 7).map (fun t => pendingAt (uartCfg 8 false) (uartTrace 2 2 false 8 false uins) t 1) =
+      [false, false, false, false, true, true, false] ∧
+    (List.range 7).map (fun t => (uartStAt 2 2 false 8 false uins t).rx) =
+      [⟨0, false⟩, ⟨0, false⟩, ⟨1, false⟩, ⟨0, true⟩, ⟨0, true⟩, ⟨0, true⟩, ⟨0, false⟩] := by decide
+
+/-- Non-vacuity of `gpio_raw_change_pending_partial` (one pad, Change mode): the raw pad rises in cycle 1, the IRQ
+    logic sees it in cycle 3, pending from cycle 4. -/
+example :
+    let g (pad : Bool) : GpioRawIn := { raw := [pad], mode := [true], edge := [false], adr := 9, we := false, datW := 0 }
+    let gins := [g false, g true, g true, g true, g true, g true]
+    rawChangeAt gins 0 1 = true ∧ rawChangeAt gins 0 0 = false ∧
+    (List.range 6).map (fun t => padAt (syncTrace 1 8 false gins) t 0) = [false, false, false, true, true, true] ∧
+    (List.range 6).map (fun t => pendingAt (gpioCfg 1 8 false) (gpioTrace 1 (syncTrace 1 8 false gins)) t 0) =
+      [false, false, false, false, true, true] := by decide
+
+/-- Interrupt numbering: CPU lines 0 and 2 taken; requests 5, "any", 31 get 5, 1, 31.  The vector of three managers
+    with irq = 1,0,1 at those numbers; a request for a used number, or for a number ≥ n_irqs, is refused. -/
+example :
+    irqAlloc 32 [0, 2] [some 5, none, some 31] = some [5, 1, 31] ∧
+    (List.range 32).filter (fun b => (cpuInterrupt 32 [5, 1, 31] [true, false, true]).getD b false) = [5, 31] ∧
+    irqAlloc 32 [0, 2] [some 5, some 2] = none ∧ irqAlloc 4 [] [some 4] = none ∧
+    irqAlloc 2 [0] [none, none] = none := by decide
+
+/-- Why `soc_interrupt_bit` needs distinct numbers (which `irq_numbers_distinct` provides): were two managers wired
+    to the same bit, the later statement would win and the earlier manager's interrupt would be invisible. -/
+example : cpuInterruptBit [3, 3] [true, false] 3 = false := by decide
 
 /-- Non-vacuity of `clear_is_local`: two runs that differ in the trigger of source 0 and in bit 0 of every written
     mask agree on everything that concerns source 1. -/
